@@ -186,3 +186,8 @@ def np_arange(eng, st, args, kwargs, line):
     elem = (lo + j) if kind == "int" else z3.ToReal(lo + j)
     n = smt.simp(z3.If(hi > lo, hi - lo, z3.IntVal(0)))
     return val(st, new_array(eng, st, [n], kind, dt, z3.Lambda([j], elem), "arange"))
+
+
+@model("numba.prange")
+def nb_prange(eng, st, args, kwargs, line):
+    return eng.call_builtin("prange", args, kwargs, st, line)
